@@ -27,11 +27,11 @@ EXPLANATION = (
 
 
 def run(ctx):
-    geom(ctx)
-    mirror(ctx)
-    frame_routine(ctx)
-    default_length(ctx)
-    logfloor(ctx)
+    ctx.rule(geom)
+    ctx.rule(mirror)
+    ctx.rule(frame_routine)
+    ctx.rule(default_length)
+    ctx.rule(logfloor)
 
 
 def geom(ctx, R="R-C02-geom"):
